@@ -156,10 +156,11 @@ Lemma strict_rejects fes bs : from_u5_strict fes = Some bs ->
   ((Z.of_nat (List.length fes) * 5) mod 8 <= 4 /\
    Z.land (last fes 0) (Z.ones ((Z.of_nat (List.length fes) * 5) mod 8)) = 0).
 Proof.
-  unfold from_u5_strict, padding_ok. destruct fes as [|v r]; [left; reflexivity|]. right.
-  destruct (Z.ltb_spec 4 ((Z.of_nat (List.length (v :: r)) * 5) mod 8)); [discriminate|].
-  destruct (Z.eqb_spec (Z.land (last (v :: r) 0) (Z.ones ((Z.of_nat (List.length (v :: r)) * 5) mod 8))) 0);
-    cbn [negb] in H; [split; [lia | assumption] | discriminate].
+  intros Hs. revert Hs. unfold from_u5_strict, padding_ok. destruct fes as [|v r]; [left; reflexivity|]. intros Hs. right.
+  set (pl := (Z.of_nat (List.length (v :: r)) * 5) mod 8) in *.
+  destruct (Z.ltb_spec 4 pl) as [Hgt|Hle]; [discriminate|].
+  destruct (Z.eqb_spec (Z.land (last (v :: r) 0) (Z.ones pl)) 0) as [Hz|Hnz];
+    cbn [negb] in Hs; [split; [lia | exact Hz] | discriminate].
 Qed.
 
 (** The padding that [to_u5] emits is shorter than one symbol. *)
